@@ -142,6 +142,16 @@ let () = iter_lines (fun line ->
       let p = if n < 4 then Relocator.grow_plan (i2n 1) (i2n n) (i2n pos) else Relocator.split_root_plan (i2n 1) (i2n n) (i2n pos) in
       let (r, s') = Relocator.run_plan (cat_of c) p (loc 0 0) [i2n 1] s in
       show_tree r s'
+    | ["kvreplace"; ck; _; k; cv] ->
+      let k = int_of_string k in
+      let s = mk_state [[Live (i2n 5)]; [Live (i2n 6)]; [Live (i2n 8)]; [Live (i2n 9)]] k in
+      let (r, s') = Replace.kv_replace (cat_of ck) (cat_of cv) (loc 0 0) (loc 1 0) (loc 2 0) (loc 3 0) s in
+      show r s'
+    | ["kvreprel"; ck; _; k; cv] ->
+      let k = int_of_string k in
+      let s = mk_state [[Live (i2n 5)]; [Live (i2n 6)]; [Live (i2n 8)]; [Live (i2n 9)]; [Raw]; [Raw]] k in
+      let (r, s') = Replace.kv_replace_relocate (cat_of ck) (cat_of cv) (loc 0 0) (loc 1 0) (loc 2 0) (loc 3 0) (loc 4 0) (loc 5 0) s in
+      show r s'
     | ["noderemove"; _; n; k; index] ->
       let n = int_of_string n and k = int_of_string k and index = int_of_string index in
       let cap = if n <= 2 then 2 else 4 in
